@@ -33,10 +33,11 @@ def readD (n : Nat) : Nat := cmdD + n * DEFAULT_READ_RETRIES + cmdD
 def payload (blocks : List Bytes) : Nat := (blocks.map List.length).sum
 /-- bytes of `write` -/
 def writeB (blocks : List Bytes) : Nat :=
-  cmdB + cmdB + cmdB + (DEFAULT_WRITE_RETRIES + 1) + (DEFAULT_WRITE_RETRIES + 1) + 1
+  cmdB + cmdB + cmdB + (DEFAULT_WRITE_RETRIES + 1) + (DEFAULT_WRITE_RETRIES + 1) + 1 + (DEFAULT_WRITE_RETRIES + 1)
     + blocks.length * ((DEFAULT_WRITE_RETRIES + 1) + 4) + payload blocks
 def writeD (blocks : List Bytes) : Nat :=
-  cmdD + cmdD + cmdD + DEFAULT_WRITE_RETRIES + DEFAULT_WRITE_RETRIES + blocks.length * DEFAULT_WRITE_RETRIES
+  cmdD + cmdD + cmdD + DEFAULT_WRITE_RETRIES + DEFAULT_WRITE_RETRIES + DEFAULT_WRITE_RETRIES
+    + blocks.length * DEFAULT_WRITE_RETRIES
 /-- bytes of `read_csd` -/
 def csdB : Nat := cmdB + rdB 16
 def csdD : Nat := cmdD + DEFAULT_READ_RETRIES
